@@ -31,7 +31,8 @@ PROP = dict(
                          "FwdList", "FwdClose", "EnvDel")),
         dict(module="BackendManagerMC", cfg="MC_BackendManager_pass.cfg", tiers=("thorough",), timeout=1500,
              allow_dead=("Register", "Adjust", "Noop")),
-        dict(module="ShadowBackend", cfg="MC_ShadowBackend_thorough.cfg", tiers=("thorough",), timeout=1500),
+        dict(module="ShadowBackend", cfg="MC_ShadowBackend_thorough.cfg", tiers=("thorough",), timeout=1500,
+             allow_dead=("ListA", "CloseA", "CloseS")),
         dict(module="ShadowBackend", cfg="MC_ShadowBackend_asbuilt.cfg", tiers=("thorough",), timeout=1500)],
     trace=dict(module="BackendManagerTrace", cfg="BackendManagerTrace.cfg", timeout=900),
     trace_alt={"shadow": dict(module="ShadowBackendTrace", cfg="ShadowBackendTrace.cfg", timeout=900)},
